@@ -56,9 +56,10 @@ fn main() {
         let x0: Vec<f64> = sys.guesses.iter().map(|g| g.1).collect();
         // exclusions (decided by the oracle from the planted geometry, not by the solver's thresholds)
         // 1. the plant must be an exact solution
+        // (judged by the independent geometric specification, not by the implementation's residual)
         let exact = sys.reqs.iter().all(|r| {
-            let (res, _) = vh::residual(r.constraint(), &xs);
-            (0..vh::residual_dim(r.constraint())).all(|k| res[k].abs() <= 1e-9 * sys.scale.max(1.0) * sys.scale.max(1.0))
+            let g = ezpz_verif_harness::geom::geom_err(r.constraint(), &xs, sys.scale);
+            g.degenerate || g.errs.iter().all(|e| (e * g.k).abs() <= 1e-9 * sys.scale.max(1.0) * sys.scale.max(1.0))
         });
         if !exact {
             excl_not_exact += 1;
